@@ -109,7 +109,7 @@ impl C10 {
     }
 }
 
-const NEW_LABELS: [&str; 6] = ["r0", "r1", "sub_2", "R", "res3", "t_"];
+const NEW_LABELS: [&str; 14] = ["r0", "r1", "sub_2", "R", "res3", "t_", "2", "00", "TRUE", "V", "1", "0", "true", "false"];
 
 fn overlaps(a: &[usize], b: &[usize]) -> bool {
     let n = a.len().min(b.len());
